@@ -94,6 +94,8 @@ class Ctx:
             self.axiom_tags.append(tag)
 
     def oblige(self, name, goal, kind='assert', line=None, meta=None):
+        if getattr(self, 'suppress_obligations', 0):
+            return
         if goal is True:
             goal = z3.BoolVal(True)
         elif goal is False:
@@ -296,8 +298,20 @@ def discharge(ob, timeout_ms=None, want_model=True, second_solver=False):
     timeout_ms = timeout_ms or Z3_TIMEOUT_MS
     tried_cvc5 = False
     if want_model and _nonlinear_goal(ob.goal):
-        # nonlinear real/integer goals: cvc5 decides these in about a second where z3 tends to run into its time limit
-        rr = run_cli(['/usr/bin/cvc5', '--tlimit=5000'], _smt2(ob.hyps, ob.goal), 8)
+        # nonlinear real/integer goals: cvc5 decides these in about a second where z3 tends to run into its time limit;
+        # the goal is Skolemised first (pointwise polynomial identities are then ground)
+        try:
+            skg, _c = skolemize(ob.goal)
+        except z3.Z3Exception:
+            skg = ob.goal
+        s1 = z3.Solver()
+        s1.set('timeout', 2000)
+        for h in ob.hyps:
+            s1.add(h)
+        s1.add(z3.Not(skg))
+        if s1.check() == z3.unsat:
+            return Verdict(ob.name, 'discharged', time.time() - t0, 'z3-5.1(api)')
+        rr = run_cli(['/usr/bin/cvc5', '--tlimit=5000'], _smt2(ob.hyps, skg), 8)
         tried_cvc5 = True
         if rr == 'unsat':
             return Verdict(ob.name, 'discharged', time.time() - t0, 'cvc5-1.0.3')
